@@ -115,7 +115,17 @@ def check(ctx: Ctx) -> str:
                 ok = len(hs) == 1 and ast.unparse(hs[0].type) == "Exception" and "self.environment.handle_exception()" in ast.unparse(hs[0])
                 ctx.check(ok, f"{nm}:handler", f"environment:Template.{nm}", "exception routing", f"{nm} must route exceptions (and only Exception) through environment.handle_exception()", f"src/jinja2/environment.py:{fn.lineno}")
             else:
-                ctx.check("ctx = self.new_context(vars, shared, locals)" in src and "TemplateModule(self, ctx" in src.replace("\n", " "), f"{nm}:ctx", f"environment:Template.{nm}", "module context", f"{nm} must build TemplateModule(self, self.new_context(vars, shared, locals), ...)", f"src/jinja2/environment.py:{fn.lineno}")
+                tms_ = [c for c in astq.calls(fn) if astq.callee(c) == "TemplateModule" and len(c.args) >= 2]
+                ok_tm = len(tms_) == 1 and ast.unparse(tms_[0].args[0]) == "self"
+                if ok_tm:
+                    a1 = tms_[0].args[1]
+                    if isinstance(a1, ast.Name):
+                        d_ = [x for x in ast.walk(fn) if isinstance(x, ast.Assign) and len(x.targets) == 1 and isinstance(x.targets[0], ast.Name) and x.targets[0].id == a1.id]
+                        # the body generator (async form) must run over the same context object
+                        ok_tm = all(ast.unparse(c.args[0]) == a1.id for c in astq.calls(tms_[0]) if astq.callee(c) == "self.root_render_func" and c.args)
+                        a1 = d_[0].value if len(d_) == 1 else a1
+                    ok_tm = ok_tm and ast.unparse(a1) == "self.new_context(vars, shared, locals)"
+                ctx.check(ok_tm, f"{nm}:ctx", f"environment:Template.{nm}", "module context", f"{nm} must build TemplateModule(self, self.new_context(vars, shared, locals), ...)", f"src/jinja2/environment.py:{fn.lineno}")
         # dispatch: sync form of an async environment runs the async form
         if s in ("render", "generate"):
             src = ast.unparse(sf)
